@@ -2,7 +2,7 @@
 import random
 
 from .. import refcal as R
-from ..batch import run_lines, BatchError
+from ..batch import run_lines, run_args, BatchError
 from ..core import Sub
 from .common import Viol, boundary
 from . import ddiffgen as G
@@ -149,6 +149,16 @@ def inverse(ctx, shard, nshards):
                 V.add("%s:%s" % (tagk, f[0]), {"a": a_txt, "b": l, "fmt": fmt, "us": order, "knd": kind,
                                                 "A": list(A), "B": list(bv), "kind": "inv"},
                       expected=f[1], actual=f[2], weight=abs(ta - tb))
+        # both operands as arguments (own code path in main()): two of the pairs
+        for j in sorted(set((0, len(lines) // 2))):
+            r = run_args(ctx.build, "ddiff", ["-f", fmt, "--", a_txt, lines[j]])
+            o = (r.lines() or [""])[0]
+            sub.evaluations += 1
+            f = ("crash", "clean exit", r.brief()) if r.crashed else _check(kind, order, A, Bs[j], o)
+            if f:
+                V.add("arg:%s:%s" % (tagk, f[0]), {"a": a_txt, "b": lines[j], "fmt": fmt, "us": order, "knd": kind,
+                                                    "A": list(A), "B": list(Bs[j]), "kind": "inv", "route": "arg"},
+                      expected=f[1], actual=f[2])
         # antisymmetry on a sample: ddiff(B, A) is ddiff(A, B) with the sign toggled
         for (bv, l, o) in list(zip(Bs, lines, out))[:6]:
             try:
@@ -175,7 +185,13 @@ def replay(ctx, subname, case):
         except BatchError as e:
             return {"detail": str(e), "result": e.result.brief()}
         return None
-    out, _ = run_lines(ctx.build, "ddiff", [case["a"], "-f", case["fmt"]], [case["b"]])
+    if case.get("route") == "arg":
+        r = run_args(ctx.build, "ddiff", ["-f", case["fmt"], "--", case["a"], case["b"]])
+        if r.crashed:
+            return {"why": "crash", "actual": r.brief()}
+        out = r.lines() or [""]
+    else:
+        out, _ = run_lines(ctx.build, "ddiff", [case["a"], "-f", case["fmt"]], [case["b"]])
     if case["kind"] == "anti":
         ro, _ = run_lines(ctx.build, "ddiff", [case["b"], "-f", case["fmt"]], [case["a"]])
         p1, p2 = G.parse_output(out[0], case["us"]), G.parse_output(ro[0], case["us"])
